@@ -24,6 +24,11 @@ VARIANTS = {"fixed": (0, 0, 0), "arith=LongDouble": (1, 0, 0), "gsort=StrSort": 
 
 
 # ----------------------------------------------------------------------------- values
+def regenerate(res):
+    """T22: the write front end of DigitalMetadataWriter (verbatim guard) -> coq/Gen/MdFrontGen.v"""
+    common.regenerate_with(res, "mdfront2gallina", "MdFrontGen.v", "T22: DigitalMetadataWriter.write / _write front end (verbatim guard)")
+
+
 def conv(v):
     """what the reader is documented to return for a written leaf value"""
     if v is None:
